@@ -134,6 +134,11 @@ func (i *interpreter) resolveExternal(fn *ssa.Function) externalFn {
 			i.logEvent(fr.th, "lock", m.id, 0, m.name, fr)
 			return true
 		}
+	case "(*sync.Once).Do":
+		return func(fr *frame, a []value) value {
+			fr.i.onceDo(fr, fr.nilCheck(a[0].(*value)), a[1])
+			return nil
+		}
 	case "(*sync.WaitGroup).Add":
 		return func(fr *frame, a []value) value {
 			fr.i.wgAdd(fr, fr.nilCheck(a[0].(*value)), int(asInt64(a[1])))
@@ -169,6 +174,18 @@ func (i *interpreter) resolveExternal(fn *ssa.Function) externalFn {
 		return func(fr *frame, a []value) value { fr.i.stub("runtime.Stack=0"); return 0 }
 	case "sort.SliceStable", "sort.Slice":
 		return func(fr *frame, a []value) value { fr.i.sliceStable(fr, a[0], a[1]); return nil }
+	case "strconv.Atoi":
+		return func(fr *frame, a []value) value {
+			s, ok := a[0].(string)
+			if !ok {
+				panic(unsupported{"symbolic argument to strconv.Atoi"})
+			}
+			v, err := strconv.Atoi(s)
+			if err != nil {
+				return tuple{v, fr.i.makeError(fr, err.Error())}
+			}
+			return tuple{v, iface{}}
+		}
 	case "strconv.ParseInt":
 		return func(fr *frame, a []value) value {
 			v, err := strconv.ParseInt(a[0].(string), int(asInt64(a[1])), int(asInt64(a[2])))
